@@ -89,7 +89,7 @@ AXES = dict(BASE, params=dict(self='obj:Domain', attrs='seq:obj'),
                      'axis-is-position-of-attribute': 'forall(lambda i: 0 <= result[i] and result[i] < len(self.attrs) and same(self.attrs[result[i]], attrs[i]), 0, len(attrs))'})
 
 # ------------------------------------------------------------------ merge
-MERGE = dict(BASE, params=dict(self='obj:Domain', other='obj:Domain'), requires=inv('self') + inv('other'),
+MERGE = dict(BASE, inst_rounds=3, params=dict(self='obj:Domain', other='obj:Domain'), requires=inv('self') + inv('other'),
              ensures={'self-attributes-first': 'len(result.attrs) >= len(self.attrs) and forall(lambda i: same(result.attrs[i], self.attrs[i]) and result.shape[i] == self.shape[i], 0, len(self.attrs))',
                       'then-new-attributes-of-other': 'forall(lambda j: implies(j >= len(self.attrs), (result.attrs[j] in other.attrs) and not (result.attrs[j] in self.attrs)), 0, len(result.attrs))',
                       'covers-other': 'forall(lambda i: other.attrs[i] in result.attrs, 0, len(other.attrs))',
